@@ -13,6 +13,10 @@ use ckb_network::{
 pub struct Shared {
     pub sent: Mutex<VecDeque<(ProtocolId, PeerIndex, P2pBytes)>>,
     pub banned: Mutex<Vec<(PeerIndex, String)>>,
+    /// handler-invocation number (World::events) at which each ban was issued, parallel to `banned`
+    pub ban_events: Mutex<Vec<u64>>,
+    /// set by the world before every handler call
+    pub clock: std::sync::atomic::AtomicU64,
     pub disconnected: Mutex<Vec<(PeerIndex, String)>>,
     /// every message ever sent (protocol, peer, bytes) for history oracles; capped
     pub log: Mutex<Vec<(ProtocolId, PeerIndex, P2pBytes)>>,
@@ -115,6 +119,7 @@ impl CKBProtocolContext for Ctx {
     fn report_peer(&self, _i: PeerIndex, _b: Behaviour) {}
     fn ban_peer(&self, i: PeerIndex, _d: Duration, reason: String) {
         self.shared.banned.lock().unwrap().push((i, reason));
+        self.shared.ban_events.lock().unwrap().push(self.shared.clock.load(std::sync::atomic::Ordering::SeqCst));
     }
     fn protocol_id(&self) -> ProtocolId {
         self.protocol.protocol_id()
